@@ -56,8 +56,68 @@ pub fn cert_and_key(alg: &str) -> (&'static [u8], &'static [u8], SigningAlg) {
 }
 
 pub fn make_signer(alg: &str) -> c2pa::BoxedSigner {
+    // "es256-der" etc.: the same credentials behind a signer that hands ECDSA signatures back in
+    // ASN.1 DER, as raw OpenSSL-style signers do (the SDK has to bring them to r||s form)
+    if let Some(base) = alg.strip_suffix("-der") {
+        return Box::new(DerSigner { inner: make_signer(base) });
+    }
     let (c, k, a) = cert_and_key(alg);
     c2pa::create_signer::from_keys(c, k, a, None).expect("fixture signer")
+}
+
+pub struct DerSigner {
+    pub inner: c2pa::BoxedSigner,
+}
+
+/// r||s -> SEQUENCE { INTEGER r, INTEGER s }; anything that is not an even-length r||s is passed on
+pub fn p1363_to_der(sig: &[u8]) -> Vec<u8> {
+    if ![64usize, 96, 132].contains(&sig.len()) {
+        return sig.to_vec();
+    }
+    let int = |b: &[u8]| -> Vec<u8> {
+        let mut v: Vec<u8> = b.iter().copied().skip_while(|x| *x == 0).collect();
+        if v.is_empty() {
+            v.push(0);
+        }
+        if v[0] & 0x80 != 0 {
+            v.insert(0, 0);
+        }
+        let mut o = vec![0x02];
+        o.extend(der_len(v.len()));
+        o.extend(v);
+        o
+    };
+    let (r, s) = sig.split_at(sig.len() / 2);
+    let body = [int(r), int(s)].concat();
+    let mut o = vec![0x30];
+    o.extend(der_len(body.len()));
+    o.extend(body);
+    o
+}
+
+fn der_len(n: usize) -> Vec<u8> {
+    if n < 128 {
+        vec![n as u8]
+    } else if n < 256 {
+        vec![0x81, n as u8]
+    } else {
+        vec![0x82, (n >> 8) as u8, n as u8]
+    }
+}
+
+impl c2pa::Signer for DerSigner {
+    fn sign(&self, data: &[u8]) -> c2pa::Result<Vec<u8>> {
+        self.inner.sign(data).map(|s| p1363_to_der(&s))
+    }
+    fn alg(&self) -> SigningAlg {
+        self.inner.alg()
+    }
+    fn certs(&self) -> c2pa::Result<Vec<Vec<u8>>> {
+        self.inner.certs()
+    }
+    fn reserve_size(&self) -> usize {
+        self.inner.reserve_size()
+    }
 }
 
 pub const TRUST_ANCHORS: &str =
